@@ -360,6 +360,34 @@ return False
             "Definition gen_rect_cov_true_statuses : list (option nat) := [None; Some 0%nat].  (* None, 'optimal' *)\n")
 
 
+def t_ds_update(src, cls, prefix):
+    where = f"vopy/design_space.py:{cls}.update"
+    fn = src.func("vopy/design_space.py", f"{cls}.update")
+    default = "list(range(self.cardinality))" if cls == "FixedPointsDesignSpace" else "list(range(len(self.points)))"
+    b = match_stmts(f"""
+if indices_to_update is None:
+    indices_to_update = {default}
+if scale.ndim < 2:
+    scale = np.repeat(np.atleast_1d(scale)[None, :], len(indices_to_update), axis=0)
+elif scale.ndim != 2 or len(scale) != len(indices_to_update):
+    raise ValueError(M_msg)
+mus, covs = model.predict(self.points[indices_to_update])
+for M_i, M_mu, M_cov, M_s in zip(M_z1, M_z2, M_z3, M_z4):
+    self.confidence_regions[M_j].update(M_a1, M_a2, M_a3)
+""", clean_body(fn), where)
+    loopvars = [ast.unparse(b[k]) for k in ("M_i", "M_mu", "M_cov", "M_s")]
+    zipped = [ast.unparse(b[k]) for k in ("M_z1", "M_z2", "M_z3", "M_z4")]
+    args = [ast.unparse(b[k]) for k in ("M_a1", "M_a2", "M_a3")]
+    env = dict(zip(loopvars, zipped))
+    if ast.unparse(b["M_j"]) not in env or any(a not in env for a in args):
+        raise Reject(where, "region index / update arguments are not the loop variables")
+    q = lambda l: "[" + "; ".join(f'"{x}"' for x in l) + "]"
+    return (f"(* {where}: which zipped sequence feeds the region index and update(mean, covariance, scale) *)\n"
+            f"Definition {prefix}_update_region_index : string := \"{env[ast.unparse(b['M_j'])]}\".\n"
+            f"Definition {prefix}_update_args : list string := {q([env[a] for a in args])}.\n"
+            f"Definition {prefix}_update_predicts_on : string := \"self.points[indices_to_update]\".\n")
+
+
 def run(src, out):
     hdr = {}
     f = "Gen_order.v"
@@ -381,6 +409,10 @@ def run(src, out):
     out.attempt(f, "ell_update", lambda: t_ell_update(src))
     out.attempt(f, "hyperrectangle_get_region_matrix", lambda: t_region_matrix(src))
     out.attempt(f, "rect_is_covered", lambda: t_rect_is_covered(src))
+    f = "Gen_space.v"
+    hdr[f] = (HEADER.format(src="vopy/design_space.py") + "From Coq Require Import String List.\nImport ListNotations.\nOpen Scope string_scope.\n\n")
+    out.attempt(f, "FixedPointsDesignSpace.update", lambda: t_ds_update(src, "FixedPointsDesignSpace", "fixed"))
+    out.attempt(f, "AdaptivelyDiscretizedDesignSpace.update", lambda: t_ds_update(src, "AdaptivelyDiscretizedDesignSpace", "adaptive"))
     import algos
     algos.run(src, out, hdr)
     import steps
